@@ -61,7 +61,8 @@ Start == [pc |-> "auth", alt |-> 1, calls |-> 0, k |-> 1, auth |-> <<>>, args |-
 
 Decision(script, n) == IF n <= Len(script) THEN script[n] ELSE TRUE
 
-Step(h, req, script, fail, sameErr, s) ==
+\* opts = [fail : BOOLEAN, sameErr : BOOLEAN, status : Nat]  (status # 0: the controller calls SetStatus(status) before returning)
+Step(h, req, script, opts, s) ==
     CASE s.pc = "auth" ->
             IF s.alt > Len(h.alts) THEN [s EXCEPT !.pc = IF h.alts = <<>> THEN "parse" ELSE "refused"]
             ELSE LET c  == h.alts[s.alt]
@@ -69,7 +70,7 @@ Step(h, req, script, fail, sameErr, s) ==
                      ok == Decision(script, n)
                      ev == [scheme |-> c.scheme, scopes |-> c.scopes, ok |-> ok]
                  IN  IF ok THEN [s EXCEPT !.pc = "parse", !.calls = n, !.auth = Append(@, ev)]
-                     ELSE [s EXCEPT !.alt = @ + 1, !.calls = n, !.auth = Append(@, ev), !.lastStatus = RefusalStatus(n, sameErr)]
+                     ELSE [s EXCEPT !.alt = @ + 1, !.calls = n, !.auth = Append(@, ev), !.lastStatus = RefusalStatus(n, opts.sameErr)]
       [] s.pc = "refused" -> [s EXCEPT !.pc = "done", !.outcome = "refused", !.status = s.lastStatus]
       [] s.pc = "parse" ->
             IF s.k > Len(h.params) THEN [s EXCEPT !.pc = "invoke"]
@@ -83,12 +84,13 @@ Step(h, req, script, fail, sameErr, s) ==
                      ELSE [s EXCEPT !.k = @ + 1, !.args = Append(@, TokOf(p.type, tok).canon)]
       [] s.pc = "invoke" ->
             [s EXCEPT !.pc = "done", !.outcome = "invoked",
-                      !.status = IF fail THEN 500 ELSE IF h.returnsValue THEN 200 ELSE 204]
+                      !.status = IF opts.status # 0 THEN opts.status ELSE IF opts.fail THEN 500 ELSE IF h.returnsValue THEN 200 ELSE 204]
       [] OTHER -> s
 
-RECURSIVE RunFrom(_, _, _, _, _, _)
-RunFrom(h, req, script, fail, sameErr, s) == IF s.pc = "done" THEN s ELSE RunFrom(h, req, script, fail, sameErr, Step(h, req, script, fail, sameErr, s))
-RunOf(h, req, script, fail, sameErr) == RunFrom(h, req, script, fail, sameErr, Start)
+RECURSIVE RunFrom(_, _, _, _, _)
+RunFrom(h, req, script, opts, s) == IF s.pc = "done" THEN s ELSE RunFrom(h, req, script, opts, Step(h, req, script, opts, s))
+RunOf(h, req, script, opts) == RunFrom(h, req, script, opts, Start)
+NoOpts == [fail |-> FALSE, sameErr |-> FALSE, status |-> 0]
 
 --------------------------------------------------------------------------
 (* the step machine as a behaviour, for model checking on a small universe *)
@@ -102,7 +104,7 @@ ReqsFor(hd) == LET choices(p) == IF p.in = "ctx" THEN {ABSENT}
 
 RInit == /\ h \in HandlerChoices /\ script \in ScriptChoices /\ st = Start
          /\ req \in {[toks |-> r] : r \in ReqsFor(h)}
-RNext == st.pc # "done" /\ st' = Step(h, req, script, FALSE, FALSE, st) /\ UNCHANGED <<h, req, script>>
+RNext == st.pc # "done" /\ st' = Step(h, req, script, NoOpts, st) /\ UNCHANGED <<h, req, script>>
 RSpec == RInit /\ [][RNext]_rvars /\ WF_rvars(RNext)
 
 Approved(a) == \E i \in DOMAIN a : a[i].ok
